@@ -232,19 +232,26 @@ impl XmlReader {
         doc: &mut RustDocument,
         child: Node<'n, 'n>,
     ) -> Result<(), WriterError> {
-        let schema = child
+        let mut schemas = child
             .children()
-            .find(|n| n.tag_name().name() == "schema")
-            .ok_or(WriterError::SchemaNotFound)?;
-
-        // the inline schema has a target namespace of its own, which need not be the WSDL's
-        let wsdl_namespace = doc.current_target_namespace.clone();
-        if let Some(target_namespace) = schema.attribute("targetNamespace") {
-            doc.switch_to_target_namespace(target_namespace);
+            .filter(|n| n.is_element() && n.tag_name().name() == "schema")
+            .peekable();
+        if schemas.peek().is_none() {
+            return Err(WriterError::SchemaNotFound);
         }
-        let result = Self::read_xsd(schema, files, doc);
-        doc.current_target_namespace = wsdl_namespace;
-        result
+
+        // wsdl:types may hold several schemas, one per namespace; each inline schema has a target
+        // namespace of its own, which need not be the WSDL's
+        let wsdl_namespace = doc.current_target_namespace.clone();
+        for schema in schemas {
+            if let Some(target_namespace) = schema.attribute("targetNamespace") {
+                doc.switch_to_target_namespace(target_namespace);
+            }
+            let result = Self::read_xsd(schema, files, doc);
+            doc.current_target_namespace.clone_from(&wsdl_namespace);
+            result?;
+        }
+        Ok(())
     }
 
     fn read_xsd<'n>(node: Node<'n, 'n>, files: &Files, doc: &mut RustDocument) -> WriterResult<()> {
